@@ -94,3 +94,54 @@ func ZZ_C14_u32v6() {
 		zz.Assert(len(keys) == 0, "prefix 0 yields an empty (match-all) key list")
 	}
 }
+
+// C14(a) filter construction: every filter built with MatchSrc selects
+// exactly its own CIDR, however many filters the process built before (the
+// dual-stack datapath builds an IPv4 and then an IPv6 filter back to back).
+// Two fresh filters, first for an arbitrary IPv4 CIDR, second for an IPv4 or
+// IPv6 CIDR: afterwards each selector carries exactly the keys of its own
+// CIDR, the key count matches, the selectors are distinct objects, and adding
+// a second CIDR to an existing selector appends to that selector only.
+func ZZ_C14_matchsrc_filters() {
+	pa := zz.Fork("a.prefix", 33)
+	na := zz.Uint32("a.net")
+	cidrA := &net.IPNet{IP: net.IP{byte(na >> 24), byte(na >> 16), byte(na >> 8), byte(na)}, Mask: net.CIDRMask(pa, 32)}
+	var cidrB *net.IPNet
+	if zz.Bool("b.v6") {
+		pb := []int{0, 1, 32, 33, 64, 96, 127, 128}[zz.Fork("b.prefix6", 8)]
+		ip := make(net.IP, 16)
+		for i := 0; i < 4; i++ {
+			w := zz.Uint32("b.w" + string(rune('0'+i)))
+			ip[4*i], ip[4*i+1], ip[4*i+2], ip[4*i+3] = byte(w>>24), byte(w>>16), byte(w>>8), byte(w)
+		}
+		// IPv4-mapped IPv6 addresses (::ffff:a.b.c.d) are outside the claim: no pod address has this form
+		zz.Assume(ip.To4() == nil)
+		cidrB = &net.IPNet{IP: ip, Mask: net.CIDRMask(pb, 128)}
+	} else {
+		pb := []int{0, 1, 8, 24, 31, 32}[zz.Fork("b.prefix4", 6)]
+		nb := zz.Uint32("b.net")
+		cidrB = &net.IPNet{IP: net.IP{byte(nb >> 24), byte(nb >> 16), byte(nb >> 8), byte(nb)}, Mask: net.CIDRMask(pb, 32)}
+	}
+	wantA, wantB := U32MatchSrc(cidrA), U32MatchSrc(cidrB)
+	fa, fb := &netlink.U32{}, &netlink.U32{}
+	MatchSrc(fa, cidrA)
+	MatchSrc(fb, cidrB)
+	same := func(got, want []netlink.TcU32Key) bool {
+		if len(got) != len(want) {
+			return false
+		}
+		ok := true
+		for i := range got {
+			ok = zz.And(ok, got[i] == want[i])
+		}
+		return ok
+	}
+	zz.Assert(fa.Sel != nil && fb.Sel != nil && fa.Sel != fb.Sel, "every filter has its own selector")
+	zz.Assert(same(fa.Sel.Keys, wantA) && int(fa.Sel.Nkeys) == len(wantA), "the first filter still selects exactly its own CIDR after the second was built")
+	zz.Assert(same(fb.Sel.Keys, wantB) && int(fb.Sel.Nkeys) == len(wantB), "the second filter selects exactly its own CIDR")
+	zz.Assert(fa.Sel.Flags == fb.Sel.Flags && fa.Sel.Flags != 0, "both selectors are terminal")
+	// appending a second source to an existing selector
+	MatchSrc(fb, cidrA)
+	zz.Assert(same(fb.Sel.Keys, append(append([]netlink.TcU32Key(nil), wantB...), wantA...)) && int(fb.Sel.Nkeys) == len(wantA)+len(wantB), "a second MatchSrc on the same filter appends its keys")
+	zz.Assert(same(fa.Sel.Keys, wantA), "and leaves other filters untouched")
+}
